@@ -56,7 +56,11 @@ func markerForms(m []byte) map[string][]byte {
 	return out
 }
 
-func markRun(prop, tier string, c Case, w *Worker) (res Result) {
+func markRun(prop, tier string, c Case, w *Worker) Result { return markRunInner(c, w, false) }
+
+// markRunInner runs the C09 workload; with collect set (oracle self-test on unencrypted tapes) it gathers every needle class
+// that is found instead of stopping at the first one.
+func markRunInner(c Case, w *Worker, collect bool) (res Result) {
 	var p markP
 	_ = json.Unmarshal(c.P, &p)
 	cfg := p.Cfg
@@ -117,9 +121,17 @@ func markRun(prop, tier string, c Case, w *Worker) (res Result) {
 		}
 		for _, nd := range needles {
 			if i := bytes.Index(img, nd.b); i >= 0 {
+				if collect {
+					res.setAdd("leaks", strings.Fields(nd.what)[0])
+					res.setAdd("leak_details", nd.what)
+					continue
+				}
 				viol("leak|"+strings.Fields(nd.what)[0], "%s is readable on the tape at byte %d", nd.what, i)
 				return false
 			}
+		}
+		if collect {
+			return true
 		}
 		recs, _, err := ScanTape(img, Cfg{}, nil) // outer headers only
 		if err != nil {
@@ -176,6 +188,12 @@ func markRun(prop, tier string, c Case, w *Worker) (res Result) {
 		if err != nil {
 			break
 		}
+	}
+	if collect {
+		if len(res.Sets["leaks"]) > 0 {
+			res.violate("c09|selftest-leaks", "needles found")
+		}
+		return
 	}
 	// a different private key must neither rebuild the index nor restore anything
 	rows, _ := DumpRows(rig.DB)
